@@ -59,6 +59,16 @@ def run(chk):
         if a != b:
             chk.violate({"kind": "property", "case": lib.show_case(c), "impl": a[:1500], "fresh_parse": b[:1500],
                          "explanation": "parsing a field into a value that was used before does not give the structure the field denotes"})
+    # what Parse returns is the caller's: after the caller edited an earlier result all the way down, the byte-identical
+    # field parsed again (Parse and UnmarshalControl) still gives the structure it denotes
+    ac = [("dalias", [t]) for t in pool[::3]]
+    ai = chk.run_impl(ac)
+    af = [rf[k] for k in range(0, len(pool), 3)]
+    chk.record("results-owned-by-caller", ac, ai)
+    for c, a, f in zip(ac, ai, af):
+        if a != f + " | " + f:
+            chk.violate({"kind": "property", "case": lib.show_case(c), "impl": a[:1500], "fresh_parse": f[:1500],
+                         "explanation": "after the caller edited the value an earlier Parse returned, parsing the same field again does not give the structure the field denotes"})
     # malformed classes: must be rejected, with no result
     cases, kinds = [], []
     for _ in range(chk.n(600, 12000)):
